@@ -35,7 +35,7 @@ struct ev {
 static struct ev E[NE], D[NP];      /* D[p]: poster p's "done" event */
 static long seq;
 static int owner_fd[2], owner_fd_reg;
-static struct iv_fd ofd;
+static struct iv_fd *ofd;
 static struct iv_timer otimer;
 static int posters_alive, nposters;
 static int poster_id[NP];
@@ -83,6 +83,16 @@ static void check_event(struct ev *e, const char *when)
 			when, e->name, e->posts_started, e->handled);
 }
 
+static void drop_owner_fd(void)
+{
+	iv_fd_unregister(ofd);
+	owner_fd_reg = 0;
+	/* the caller may free it at once */
+	memset(ofd, 0xbe, sizeof(*ofd));
+	free(ofd);
+	ofd = NULL;
+}
+
 static void maybe_finish(void)
 {
 	int i;
@@ -97,10 +107,8 @@ static void maybe_finish(void)
 			mc_obs("unreg-%s", E[i].name);
 			rm_event(&E[i]);
 		}
-	if (owner_fd_reg) {
-		iv_fd_unregister(&ofd);
-		owner_fd_reg = 0;
-	}
+	if (owner_fd_reg)
+		drop_owner_fd();
 	if (iv_timer_registered(&otimer))
 		iv_timer_unregister(&otimer);
 }
@@ -120,7 +128,7 @@ static void ev_handler(void *_e)
 	if (e->handled > e->posts_started)
 		mc_fail("event-over", "handler of %s invoked %ld times for %ld posts", e->name, e->handled, e->posts_started);
 	if (handler_budget > 0) {
-		c = mc_choose(5, MC_ACTION, "handler-act");
+		c = mc_choose(6, MC_ACTION, "handler-act");
 		if (c)
 			handler_budget--;
 		switch (c) {
@@ -132,6 +140,14 @@ static void ev_handler(void *_e)
 				E[2].p = mk_event(ev_handler, &E[2]);
 				E[2].reg = 1;
 				do_post(&E[2], "O");
+			}
+			break;
+		case 5:
+			/* unregister (and free) the owner's descriptor from an event handler: its readiness may already
+			 * have been collected in the same poll round */
+			if (owner_fd_reg) {
+				mc_obs("O:unreg-fd");
+				drop_owner_fd();
 			}
 			break;
 		case 4:
@@ -269,6 +285,22 @@ static void exec_one(void)
 	iv_init();
 	E[0].name = "E0"; E[1].name = "E1"; E[2].name = "E2";
 	D[0].name = "D0"; D[1].name = "D1"; D[2].name = "D2";
+	if (mc_choose(2, MC_CONFIG, "first-register-hits-EMFILE")) {
+		/* the thread's very first iv_event_register fails on a transient EMFILE and is simply retried */
+		struct iv_event *x = malloc(sizeof(*x));
+		int ret;
+		memset(x, 0xbe, sizeof(*x));
+		IV_EVENT_INIT(x);
+		x->cookie = NULL;
+		x->handler = ev_handler;
+		env_fail_next_evfd_errno = EMFILE;
+		ret = iv_event_register(x);
+		env_fail_next_evfd_errno = 0;
+		mc_obs("O:first-register=%d", ret);
+		if (ret == 0)
+			iv_event_unregister(x);
+		free(x);
+	}
 	for (i = 0; i < 2; i++) {
 		E[i].p = mk_event(ev_handler, &E[i]);
 		E[i].reg = 1;
@@ -276,10 +308,13 @@ static void exec_one(void)
 	if (with_fd) {
 		if (socketpair(AF_UNIX, SOCK_STREAM, 0, owner_fd) < 0)
 			mc_broken("socketpair");
-		IV_FD_INIT(&ofd);
-		ofd.fd = owner_fd[0];
-		ofd.handler_in = ofd_in;
-		iv_fd_register(&ofd);
+		ofd = malloc(sizeof(*ofd));
+		memset(ofd, 0xbe, sizeof(*ofd));
+		IV_FD_INIT(ofd);
+		ofd->fd = owner_fd[0];
+		ofd->cookie = NULL;
+		ofd->handler_in = ofd_in;
+		iv_fd_register(ofd);
 		owner_fd_reg = 1;
 	}
 	IV_TIMER_INIT(&otimer);
